@@ -30,7 +30,11 @@ def scratch(tag):
     return d
 
 
-def run(args, workdir, flavour="rel", env=None, timeout=300, stdin=None):
+def _ignore_sigint():
+    signal.signal(signal.SIGINT, signal.SIG_IGN)
+
+
+def run(args, workdir, flavour="rel", env=None, timeout=300, stdin=None, sigint_ignored=False):
     """args: list of command-line arguments (without argv[0]).  Always passes '-c /dev/null' unless a config is given,
     so that no stray default.cfg is read."""
     exe = os.environ["VERIF_" + flavour.upper()]
@@ -46,8 +50,9 @@ def run(args, workdir, flavour="rel", env=None, timeout=300, stdin=None):
     if env:
         e.update(env)
     try:
+        # sigint_ignored: the program inherits SIGINT as "ignored", as a background job of a non-interactive shell does
         p = subprocess.run([exe] + list(args), cwd=workdir, env=e, stdout=subprocess.PIPE, stderr=subprocess.PIPE,
-                           timeout=timeout, stdin=subprocess.DEVNULL)
+                           timeout=timeout, stdin=subprocess.DEVNULL, preexec_fn=_ignore_sigint if sigint_ignored else None)
         return Run(p.returncode, p.stdout.decode(errors="replace"), p.stderr.decode(errors="replace"), workdir)
     except subprocess.TimeoutExpired as t:
         return Run(None, (t.stdout or b"").decode(errors="replace"), (t.stderr or b"").decode(errors="replace"), workdir, True)
